@@ -48,10 +48,12 @@ class CliWorld:
             raise HarnessError("model %r resolved to vendor %r, wanted %r" % (self.hw.model, self.hw.vendor, vkey))
         v = registry_connector.get().match(self.hw)
         self.vendor = v
-        feats = ["ordered", "rewrite", "global", "neg", "logic", "tail", "values"]
+        feats = ["ordered", "rewrite", "global", "neg", "logic", "tail", "values"] + (["overlap"] if prop == "C01" else [])
         self.allow = set(f for f in feats if ch.draw(4, "feat-" + f) != 0)
         if prop == "C02":
             self.allow.discard("rewrite")
+            if ch.draw(3, "feat-twins") != 0:
+                self.allow.add("twins")
         self.rb = W.gen_rulebook(ch, vkey, v.reverse, v.exit, unique_heads=(prop == "C09"), allow=self.allow)
         self.rb_text = self.rb.text()
         self.fmt = v.make_formatter(indent="  ")
@@ -144,6 +146,8 @@ class CliWorld:
             """returns per-generator Owned lists for this level"""
             per = [[] for _ in range(ngens)]
             for r in rules:
+                if r.twin is not None and r.neg:
+                    continue                                     # covered through its positive twin's ACL line (reverse form)
                 if ch.draw(5, "own") < 2:
                     continue                                     # unmanaged rule family
                 g = ch.draw(ngens, "owner")
@@ -538,7 +542,7 @@ class Engine:
                 r, key = m
                 if r.ordered and row not in o and W.find_line(o, rules, rb.globals, r, key, rb.rev) is not None:
                     return True
-                if r.block and not r.rewrite and row in o and value_change(o[row], sub, r.children):
+                if r.block and not r.rewrite and row in o and value_change(o[row], sub, W.kids(rules, row, r, rb.rev)):
                     return True
             return False
         return "ordered-rule-value-change" if value_change(old, new, rb.rules) else "diverged"
@@ -556,11 +560,17 @@ class Engine:
             if all_mode:
                 holders, rule = ["ALL"], None
                 continue
-            m = W.match_direct(rules, rb.globals, row, rb.rev) or W.match_removal(rules, rb.globals, row, rb.rev)
-            if m is None:
+            holders, rule = [], None
+            for m in (W.match_direct(rules, rb.globals, row, rb.rev), W.match_removal(rules, rb.globals, row, rb.rev)):
+                # an ACL line covers a row directly or as the reverse form of a covered row
+                if m is None:
+                    continue
+                rule = m[0]
+                holders = [o for owned in level_owned for o in owned if o.rule is rule]
+                if holders:
+                    break
+            if rule is None:
                 return False, [], None, False
-            rule = m[0]
-            holders = [o for owned in level_owned for o in owned if o.rule is rule]
             if not holders:
                 return False, [], rule, False
             if any(o.children == "ALL" for o in holders):
@@ -578,6 +588,8 @@ class Engine:
             m = W.match_direct(rules, rb.globals, row, rb.rev)
             r = m[0] if m else None
             holders = [o for owned in level_owned for o in owned if o.rule is r] if r is not None else []
+            if not holders and r is not None and r.twin is not None:
+                holders = [o for owned in level_owned for o in owned if o.rule is r.twin]     # reverse form of an owned line
             if not holders:
                 out[row] = ("U", copy.deepcopy(sub))
             elif any(o.children == "ALL" for o in holders):
@@ -638,7 +650,11 @@ class Engine:
                     found.append(V("unmanaged-line-removed", "unmanaged-removed", device=inv.hostname, command_index=k, command=row,
                                    line=list(rpath), commands=world.received.get(inv.id)))
                     return
-                if not all_mode and holders and all(o.eff_cant_delete(rb.rev) for o in holders):
+                removed_rule = next((x for x in rb.all if x.uid == uid), None)
+                reverse_form = removed_rule is not None and removed_rule.neg and removed_rule.twin is not None and \
+                    rule is removed_rule.twin
+                # (replacing the reverse form 'undo x' by the protected direct form 'x' is not a deletion of 'x')
+                if not all_mode and not reverse_form and holders and all(o.eff_cant_delete(rb.rev) for o in holders):
                     # narrow signature of the known finding: the line belongs to an %ordered rule and is still wanted
                     # (it is being MOVED: deleted and re-created); a true deletion of a cant_delete line is keyed apart
                     node = world.desired[inv.id]
